@@ -109,7 +109,10 @@ def carriers(b):
         if r["k"] == "agg" and r.get("ak") == "adt" and r["adt"].split("::")[-1] in ("Bvf", "Bvd"):
             names = r["fnames"]
             if "data" in names:
-                collect(b.e_operand(r["fs"][names.index("data")]))
+                o = r["fs"][names.index("data")]
+                collect(b.e_operand(o))
+                if o["k"] in ("copy", "move") and not o["p"]["pr"] and not b.is_param(o["p"]["l"]) and VEC_TYPES.match(b.local_ty(o["p"]["l"])):
+                    res.add(o["p"]["l"])          # the local itself, however many definitions it has
         if st["p"]["pr"]:
             pe = b.e_place(st["p"])
             if pe[0] == "field" and pe[2] == "data":
@@ -117,6 +120,32 @@ def carriers(b):
     if returns_words(b):
         # a helper introduced after the review that builds and returns the words of a vector (`fn words_from(..) -> [I; N]`)
         collect(b.return_expr())
+    # words prepared in one local and moved into a carrier (`let data = if .. { let mut d = ..; d.last_mut() ..; d } else { .. }`)
+    changed = True
+    while changed:
+        changed = False
+        for bb, i, st in b.iter_stmts():
+            if st["s"] == "assign" and not st["p"]["pr"] and st["p"]["l"] in res and st["r"]["k"] == "use":
+                o = st["r"]["o"]
+                if o["k"] in ("copy", "move") and not o["p"]["pr"] and o["p"]["l"] not in res and not b.is_param(o["p"]["l"]) \
+                        and VEC_TYPES.match(b.local_ty(o["p"]["l"])):
+                    res.add(o["p"]["l"])
+                    changed = True
+    return res
+
+
+def flows_into(b, local):
+    """locals whose value is moved (possibly through other locals) into `local`"""
+    res = {local}
+    changed = True
+    while changed:
+        changed = False
+        for bb, i, st in b.iter_stmts():
+            if st["s"] == "assign" and not st["p"]["pr"] and st["p"]["l"] in res and st["r"]["k"] == "use":
+                o = st["r"]["o"]
+                if o["k"] in ("copy", "move") and not o["p"]["pr"] and o["p"]["l"] not in res:
+                    res.add(o["p"]["l"])
+                    changed = True
     return res
 
 
@@ -244,6 +273,11 @@ def storage_target(b, e, carr):
         return cur, idx, via
     if cur[0] == "param" and cur[1] in helper_storage_params(b):
         return cur, idx, via
+    # a carrier with a single definition is rendered as its initialiser: `data.last_mut()` reads `last_mut(collect(..))`
+    if cur[0] == "call" and carr:
+        for c in carr:
+            if len(b.full_defs(c)) == 1 and b.init_expr(c) == cur:
+                return ("var", b.local_name(c), c), idx, via
     return None
 
 
@@ -264,7 +298,9 @@ def events(b):
             spliced = _splice_returned_words(b, fs[names.index("data")], (bb, i), out)
             if spliced is not None:
                 fs[names.index("data")] = spliced
-            out.append(Ev("agg", (bb, i), adt=r["adt"].split("::")[-1], data=fs[names.index("data")],
+            dop = r["fs"][names.index("data")]
+            dloc = dop["p"]["l"] if dop["k"] in ("copy", "move") and not dop["p"]["pr"] else None
+            out.append(Ev("agg", (bb, i), data_local=dloc, adt=r["adt"].split("::")[-1], data=fs[names.index("data")],
                           length=fs[names.index("length")], dest=dest))
             continue
         if not p["pr"]:
